@@ -22,7 +22,7 @@ CAP_E = 3.0e4       # 10 x the C01 constant A: the floor never exceeds CAP_E * E
 MIN_COUNTERS = dict(quick={'honesty_asserted:Derivative': 1200, 'honesty_asserted:Gradient': 150,
                            'honesty_asserted:Jacobian': 150, 'honesty_asserted:Hessdiag': 150,
                            'honesty_asserted:Hessian': 150, 'record_asserted': 3000,
-                           'estimate_decided_the_case': 100, 'stationary_point_entries_asserted': 60, 'overlapping_f_value_asserted': 60},
+                           'estimate_decided_the_case': 100, 'stationary_point_entries_asserted': 60, 'overlapping_f_value_asserted': 60, 'broadcast_entries_asserted': 500},
                     thorough={'honesty_asserted:Derivative': 60000})
 RULE = ('Input classes and histories as in C01, plus full_output switched on after construction, stationary points with a single difference quotient, and the C01 corpus. ' 
         'Derivative cases as in C01 (random expression programs x points x every (method, n, order) cell x step '
@@ -83,6 +83,11 @@ def cases(rng, tier, shard, nshards):
         yield dict(kind='overlap', cls=['Derivative', 'Gradient', 'Jacobian', 'Hessdiag', 'Hessian'][(j + shard) % 5],
                    method=str(rng.choice(['central', 'forward', 'backward', 'complex'])), threads=bool(j % 2),
                    at=int(rng.integers(1, 6)), xa=float(np.round(rng.uniform(0.3, 1.5), 3)), xb=float(np.round(rng.uniform(-1.5, -0.3), 3)))
+    for j in range(8 if tier == 'quick' else 80):
+        # a column of points against a row of parameters: x of shape (k, 1), f(x) of shape (k, m) by broadcasting
+        yield dict(kind='broadcast', method=str(rng.choice(['central', 'forward', 'backward', 'complex', 'multicomplex'])), n=int(rng.integers(1, 3)),
+                   order=int(rng.choice([2, 4])), k=int(rng.integers(2, 5)), m=int(rng.integers(2, 5)), seed=int(rng.integers(0, 2 ** 31)),
+                   trailing=bool(rng.random() < 0.7))
     ncells = sum((D.NMAX[m] + 1) * 8 for m in D.METHODS)
     k = shard
     for i in range(total):
@@ -448,7 +453,59 @@ def run_overlap(case, ctx):
     ctx.nontrivial(('overlap', cls, case['method'], case['threads']))
 
 
+def run_broadcast(case, ctx):
+    """x of shape (k, 1) (or (1, k)) and f(x) = sin(w * x) with a row (column) of rates w: the result has shape (k, m); entry
+    (i, j) is the derivative of sin(w_j t) at t_i, and its record entry is the estimate / step of *that* entry."""
+    import numdifftools as nd
+    rng = np.random.default_rng(case['seed'])
+    k, m, n, method = case['k'], case['m'], case['n'], case['method']
+    t = rng.choice([-1.0, 1.0], size=k) * 10.0 ** rng.uniform(-0.5, 1.6, size=k)        # points of different magnitudes
+    w = np.round(rng.uniform(0.3, 1.5, size=m), 3)
+    if case['trailing']:
+        x, wv = t.reshape(k, 1), w.reshape(1, m)
+        T_, W_ = np.broadcast_arrays(x, wv)
+    else:
+        x, wv = t.reshape(1, k), w.reshape(m, 1)
+        T_, W_ = np.broadcast_arrays(x, wv)
+    rec = Recorder(lambda z: np.sin(wv * z))
+    D._OBS.clear()
+    try:
+        with np.errstate(all='ignore'):
+            val, info = nd.Derivative(rec, method=method, n=n, order=case['order'], full_output=True)(x.copy())
+    except Exception as exc:
+        ctx.reject('raised', observed='%s: %s' % (type(exc).__name__, str(exc)[:150]), broadcast=True, method=method, n=n)
+        return
+    val = np.asarray(val)
+    exact = W_ ** n * (np.cos(W_ * T_) if n == 1 else -np.sin(W_ * T_))
+    ctx.count('broadcast_cases')
+    est = np.asarray(info.error_estimate, dtype=float)
+    fs = np.abs(np.asarray(info.final_step, dtype=float))
+    if val.shape != exact.shape or est.shape != val.shape or fs.shape != val.shape:
+        ctx.reject('record_shape', observed=[list(val.shape), list(est.shape), list(fs.shape)], expected=list(exact.shape), broadcast=True)
+        return
+    steps = [np.abs(np.broadcast_to(np.asarray(s_, dtype=float), x.shape)) for s_ in (D._OBS.get('steps') or [])]
+    for idx in np.ndindex(*val.shape):
+        ctx.count('broadcast_entries_asserted')
+        err = abs(float(val[idx]) - float(exact[idx]))
+        scale = float(W_[idx]) ** n
+        if not err <= 1000.0 * abs(float(est[idx])) + 1e-7 * scale:
+            ctx.reject('error_exceeds_estimate', observed=float(val[idx]), expected=float(exact[idx]),
+                       detail=dict(est=float(est[idx]), entry=list(idx), point=float(T_[idx]), rate=float(W_[idx])), broadcast=True, method=method, n=n)
+            return
+        if steps:
+            # the steps generated for the point of this entry (the step arrays have the shape of x)
+            xi = idx[0] if case['trailing'] else idx[1]
+            mine = [float(s_[(xi, 0) if case['trailing'] else (0, xi)]) for s_ in steps]
+            if not any(abs(float(fs[idx]) - v) <= 4 * EPS * v for v in mine):
+                ctx.reject('final_step_outside_generated_steps', observed=float(fs[idx]), expected=[min(mine), max(mine)],
+                           detail=dict(entry=list(idx)), broadcast=True, method=method, n=n)
+                return
+    ctx.nontrivial(('broadcast', method, n, case['trailing']))
+
+
 def run_case(case, ctx):
+    if case['kind'] == 'broadcast':
+        return run_broadcast(case, ctx)
     if case['kind'] == 'overlap':
         return run_overlap(case, ctx)
     if case['kind'] == 'derivative':
